@@ -21,9 +21,15 @@ class QuadProxy(object):
 
     def quad(self, f, a, b, **kw):
         ex = current()
+        # the same integral (same integrand method, same limits as terms) requested again on this path (second
+        # solver object with identical parameters) is the same number
+        cache = ex.notes.setdefault('quadcache', {})
+        key = (f.__name__, term_of(a), term_of(b), getattr(f.__self__, 'geometry', None), term_of(getattr(f.__self__, 'omega', 0)))
+        if key in cache:
+            return (cache[key], 0.0)
         v = ex.fresh('quad')
+        cache[key] = v
         ex.note('quad', (f.__name__, a, b, v))
-        self.calls.append((f.__name__, a, b, v))
         return (v, 0.0)
 
 
